@@ -355,16 +355,16 @@ var fmCorpus = func() []engCase {
 	R := func(s string) []rune { return []rune(s) }
 	rtl, ci := int32(regexp2.RightToLeft), int32(regexp2.IgnoreCase)
 	cs := []engCase{
-		{Pattern: `abc$`, Opts: rtl, Text: R("xabc\n"), Start: 5},   // \Z's second position, right-to-left, with a Boyer-Moore prefix
+		{Pattern: `abc$`, Opts: rtl, Text: R("xabc\n"), Start: 5}, // \Z's second position, right-to-left, with a Boyer-Moore prefix
 		{Pattern: `abc\Z`, Opts: rtl, Text: R("xabc\n"), Start: 4},
-		{Pattern: `\Gab`, Text: R("abab"), Start: 2},                 // behind and at the \G origin
-		{Pattern: `ab\z`, Text: R("xxab")},                            // trailing anchor, fixed length
-		{Pattern: `(?:ab|xy)c`, CodeGen: true, Text: R("zabcxyc")},    // several leading strings
+		{Pattern: `\Gab`, Text: R("abab"), Start: 2},               // behind and at the \G origin
+		{Pattern: `ab\z`, Text: R("xxab")},                         // trailing anchor, fixed length
+		{Pattern: `(?:ab|xy)c`, CodeGen: true, Text: R("zabcxyc")}, // several leading strings
 		{Pattern: `(?:ab|xy)c`, Opts: ci, CodeGen: true, Text: R("zaBcXyc")},
-		{Pattern: `[ab]x..`, Text: R("bxa")},                          // shorter than the minimum length
-		{Pattern: `\w+@x`, Text: R("ab@x @x")},                        // literal after a leading loop
-		{Pattern: `..a`, Text: R("bbabba")},                           // one character at a fixed distance
-		{Pattern: `\s+a(?:bc|x|b)c`, Text: R(" abc")},                 // landmark chain
+		{Pattern: `[ab]x..`, Text: R("bxa")},          // shorter than the minimum length
+		{Pattern: `\w+@x`, Text: R("ab@x @x")},        // literal after a leading loop
+		{Pattern: `..a`, Text: R("bbabba")},           // one character at a fixed distance
+		{Pattern: `\s+a(?:bc|x|b)c`, Text: R(" abc")}, // landmark chain
 		// D44: a set core that overlaps the whitespace required after it gives repetitions back
 		{Pattern: `[xy]*([a ]{1,2}\s+)c(d)`, Text: R("a cd")},
 		{Pattern: `[xy]*([a ]{1,2}\s+)c(d)`, Text: R("xa cd")},
@@ -408,30 +408,30 @@ func fmDirected(maxLen int) []engCase {
 		origins  bool
 	}
 	ds := []d{
-		{`(?:abc|xyc|ac)`, 0, true, "abcxy", false},      // LeadingStrings_LeftToRight (skipping path)
-		{`(?:ab|xy)c`, ci, true, "aBcX", false},           // LeadingStrings_OrdinalIgnoreCase
-		{`[ab][cd]`, 0, true, "abcd", false},              // LeadingStrings (two-rune prefixes)
-		{`..ab`, 0, false, "abx", false},                  // FixedDistanceString
-		{`..a`, 0, false, "ab", false},                    // FixedDistanceChar
-		{`a+b`, 0, false, "abx", false},                   // FixedDistanceChar at distance 1
-		{`[ab]x..`, 0, false, "abx", false},               // FixedDistanceSets
-		{`.[ab]c`, 0, false, "abcx", false},               // FixedDistanceSets, primary at distance > 0
-		{`\d\w`, 0, false, "a1 _", false},                 // FixedDistanceSets over general sets
-		{`[ab]\w`, rtl, false, "ab1 ", false},             // LeadingSet_RightToLeft (first-character loop)
+		{`(?:abc|xyc|ac)`, 0, true, "abcxy", false}, // LeadingStrings_LeftToRight (skipping path)
+		{`(?:ab|xy)c`, ci, true, "aBcX", false},     // LeadingStrings_OrdinalIgnoreCase
+		{`[ab][cd]`, 0, true, "abcd", false},        // LeadingStrings (two-rune prefixes)
+		{`..ab`, 0, false, "abx", false},            // FixedDistanceString
+		{`..a`, 0, false, "ab", false},              // FixedDistanceChar
+		{`a+b`, 0, false, "abx", false},             // FixedDistanceChar at distance 1
+		{`[ab]x..`, 0, false, "abx", false},         // FixedDistanceSets
+		{`.[ab]c`, 0, false, "abcx", false},         // FixedDistanceSets, primary at distance > 0
+		{`\d\w`, 0, false, "a1 _", false},           // FixedDistanceSets over general sets
+		{`[ab]\w`, rtl, false, "ab1 ", false},       // LeadingSet_RightToLeft (first-character loop)
 		{`\d\w`, rtl, false, "a1 _", false},
-		{`\w+@x`, 0, false, "a@x ", false},                // LiteralAfterLoop, string literal
-		{`[a-c]+x`, 0, false, "ax ", false},               // LiteralAfterLoop, char literal
-		{`\w+@x`, ci, false, "a@X ", false},               // RequiredLandmarkChain
-		{`\s+a(?:bc|x|b)c`, 0, false, " abcx", false},     // RequiredLandmarkChain with alternatives
-		{`ab`, 0, false, "abx", false},                    // Boyer-Moore scan
+		{`\w+@x`, 0, false, "a@x ", false},            // LiteralAfterLoop, string literal
+		{`[a-c]+x`, 0, false, "ax ", false},           // LiteralAfterLoop, char literal
+		{`\w+@x`, ci, false, "a@X ", false},           // RequiredLandmarkChain
+		{`\s+a(?:bc|x|b)c`, 0, false, " abcx", false}, // RequiredLandmarkChain with alternatives
+		{`ab`, 0, false, "abx", false},                // Boyer-Moore scan
 		{`ab`, rtl, false, "abx", false},
 		{`aab`, 0, false, "ab", false},
 		{`aba`, rtl, false, "ab", false},
-		{`Ab`, ci, false, "aAbB", false},                  // LeadingString_OrdinalIgnoreCase (ASCII folding)
-		{`\u00e9a`, ci, false, "\u00e9\u00c9aA", false},     // … through unicode.ToLower
-		{`k[ab]`, ci, false, "kK\u212aa", false},           // Kelvin sign
-		{`ab\z`, 0, false, "ab\n", false},                  // anchors …
-		{`ab\z`, ci, false, "aB\n", false},                 // TrailingAnchor_FixedLength_End helper
+		{`Ab`, ci, false, "aAbB", false},                // LeadingString_OrdinalIgnoreCase (ASCII folding)
+		{`\u00e9a`, ci, false, "\u00e9\u00c9aA", false}, // … through unicode.ToLower
+		{`k[ab]`, ci, false, "kK\u212aa", false},        // Kelvin sign
+		{`ab\z`, 0, false, "ab\n", false},               // anchors …
+		{`ab\z`, ci, false, "aB\n", false},              // TrailingAnchor_FixedLength_End helper
 		{`ab\Z`, 0, false, "ab\n", false},
 		{`ab\z`, rtl, false, "ab\n", false},
 		{`ab\Z`, rtl, false, "ab\n", false},
@@ -445,7 +445,7 @@ func fmDirected(maxLen int) []engCase {
 		{`\G\w`, 0, false, "a ", true},
 		{`ab\G`, rtl, false, "ab", true},
 		{`\w\G`, rtl, false, "a ", true},
-		{`\w*`, 0, false, "a ", false},                     // nothing to search for
+		{`\w*`, 0, false, "a ", false}, // nothing to search for
 	}
 	var out []engCase
 	for _, x := range ds {
